@@ -809,6 +809,8 @@ class Interp:
                 return OPAQUE
             if isinstance(base, type) and base is _dt.datetime and e.attr in ('now', 'today', 'min'):
                 return OPAQUE
+            if base is str and e.attr in STR_METHODS:
+                return ('strfn', e.attr, None)
             return OPAQUE
         if isinstance(e, ast.Call):
             return self.call(e, env, ctx)
@@ -943,6 +945,13 @@ class Interp:
         if isinstance(f, Opaque):
             return OPAQUE
         opaque_arg = any(isinstance(a, Opaque) for a in args) or any(isinstance(v, Opaque) for v in kwargs.values())
+        if isinstance(f, tuple) and len(f) == 3 and f[0] == 'strfn':
+            if opaque_arg or not args or not isinstance(args[0], str):
+                return OPAQUE
+            try:
+                return getattr(str, f[1])(*args, **kwargs)
+            except (TypeError, ValueError, IndexError, KeyError) as ex:
+                raise PyRaise(ex)
         if isinstance(f, tuple) and len(f) == 3 and f[0] == 'method':
             return self.call_function(f[2], args, kwargs, self_value=f[1])
         if isinstance(f, tuple) and len(f) == 3 and f[0] == 'bound' and isinstance(f[1], (dict, list)):
